@@ -1179,7 +1179,10 @@ func (fr *Frame) modelExternal(callee *ssa.Function, c *ssa.CallCommon, args []V
 		in := vc.term(st, args[0])
 		errT := vc.define("yaml_err", "Err", fmt.Sprintf("(%s %s)", en, in))
 		nv := vc.fresh("yaml_out", srt)
-		vc.fact(implies(eq(errT, "enil"), eq(nv, fmt.Sprintf("(%s %s)", vn, in))))
+		// yaml.v3 decodes *into* its target (maps keep their entries, absent keys keep their old value): the decoded
+		// value is a function of the bytes only when the target holds its zero value before the call
+		prev := vc.load(st, target.Loc)
+		vc.fact(implies(and(eq(errT, "enil"), eq(prev, vc.S.Zero(pt.Elem()))), eq(nv, fmt.Sprintf("(%s %s)", vn, in))))
 		vc.store(st, target.Loc, nv)
 		return Val{T: resT, Term: errT}, true
 	case "fmt.Sprintf", "fmt.Errorf":
@@ -1555,7 +1558,9 @@ func (fr *Frame) dynCall(fv Val, c *ssa.CallCommon, args []Val, resT types.Type,
 					en, vn := decodeFuncs(vc, srt)
 					errT := vc.define("decode_err", "Err", fmt.Sprintf("(%s %s)", en, fv.Term))
 					nv := vc.fresh("decode_out", srt)
-					vc.fact(implies(eq(errT, "enil"), eq(nv, fmt.Sprintf("(%s %s)", vn, fv.Term))))
+					// (as for yaml.Unmarshal: only a target that holds its zero value receives exactly the decoded value)
+					prev := vc.load(st, target.Loc)
+					vc.fact(implies(and(eq(errT, "enil"), eq(prev, vc.S.Zero(pt.Elem()))), eq(nv, fmt.Sprintf("(%s %s)", vn, fv.Term))))
 					vc.store(st, target.Loc, nv)
 					return Val{T: resT, Term: errT}
 				}
